@@ -16,7 +16,7 @@ theorem isEnc_cases {t : Tok} (h : isEnc t = true) : t = "?>?" ∨ t = "?+?" ∨
 theorem isComb_cases {t : Tok} (h : isComb t = true) : t = ">" ∨ t = "+" ∨ t = "~" := by
   simpa [isComb, or_assoc] using h
 
-theorem hasQ_of_isEnc {t : Tok} (h : isEnc t = true) : hasQ t = true := by
+theorem isEncLike_of_isEnc {t : Tok} (h : isEnc t = true) : isEncLike t = true := by
   rcases isEnc_cases h with rfl | rfl | rfl <;> decide
 
 theorem isEnc_encComb {t : Tok} (h : isComb t = true) : isEnc (encComb t) = true := by
@@ -83,7 +83,7 @@ theorem encodeLoop_decodeSel (s : Sel) : ∀ (cur : List Tok) (done : List Sel) 
         simp only [List.head?_cons, ne_eq, Option.some.injEq]
         rcases hn.1 with h | h
         · simpa using h
-        · rw [hasQ_of_isEnc hu] at h; exact absurd h (by decide))
+        · rw [isEncLike_of_isEnc hu] at h; exact absurd h (by decide))
       simpa [decodeSel] using this
 
 /-- the minimal hypothesis of the round trip on one selector -/
@@ -250,7 +250,7 @@ theorem pf_subset : ∀ (s : Sel), ∀ x ∈ pairwiseFilter s, x ∈ s
       | true => simp [pairwiseFilter, ht] at h
       | false => simpa [pairwiseFilter, ht] using h
   | t :: u :: r, x, h => by
-      cases hc : (t == " " && hasQ u) with
+      cases hc : (t == " " && isEncLike u) with
       | true =>
         simp only [pairwiseFilter, hc, if_true] at h
         exact List.mem_cons_of_mem _ (pf_subset (u :: r) x h)
@@ -269,7 +269,7 @@ theorem pf_chain : ∀ (s : Sel) (a : Tok), chainFrom a s = true → chainFrom a
   | t :: u :: r, a, h => by
       have h' := h
       rw [chainFrom, Bool.and_eq_true] at h'
-      cases hc : (t == " " && hasQ u) with
+      cases hc : (t == " " && isEncLike u) with
       | true =>
         simp only [pairwiseFilter, hc, if_true]
         have ht : t = " " := by
@@ -300,13 +300,13 @@ theorem pf_nsbe : ∀ (s : Sel) (a : Tok), chainFrom a s = true → noSpaceBefor
       have h' := h
       rw [chainFrom, Bool.and_eq_true] at h'
       have ih := pf_nsbe (u :: r) t h'.2
-      cases hc : (t == " " && hasQ u) with
+      cases hc : (t == " " && isEncLike u) with
       | true => simpa only [pairwiseFilter, hc, if_true] using ih
       | false =>
         simp only [pairwiseFilter, hc, Bool.false_eq_true, if_false]
         by_cases ht : t = " "
         · subst ht
-          have hq : hasQ u = false := by simpa using hc
+          have hq : isEncLike u = false := by simpa using hc
           have hu : u ≠ " " := by
             have := h'.2
             rw [chainFrom, Bool.and_eq_true] at this
@@ -336,7 +336,7 @@ theorem pf_last : ∀ (s : Sel) (a : Tok), chainFrom a s = true → isEnc (lastO
       have h' := hch
       rw [chainFrom, Bool.and_eq_true] at h'
       have ih := pf_last (u :: r) t h'.2 h
-      cases hc : (t == " " && hasQ u) with
+      cases hc : (t == " " && isEncLike u) with
       | false =>
         simp only [pairwiseFilter, hc, Bool.false_eq_true, if_false]
         exact ih
@@ -619,10 +619,10 @@ theorem popSpaceRev_cases (cur : List Tok) : popSpaceRev cur = cur ∨ cur = " "
   · exact Or.inr rfl
   · exact Or.inl rfl
 
-theorem hasQ_false_not_enc {t : Tok} (h : hasQ t = false) : isEnc t = false := by
+theorem isEncLike_false_not_enc {t : Tok} (h : isEncLike t = false) : isEnc t = false := by
   cases he : isEnc t with
   | false => rfl
-  | true => rw [hasQ_of_isEnc he] at h; exact absurd h (by decide)
+  | true => rw [isEncLike_of_isEnc he] at h; exact absurd h (by decide)
 
 theorem encodeLoop_ok (top : Bool) (toks : List Tok) : ∀ (prev : Tok) (cur : List Tok) (done : List Sel),
     toks.all (srcTok top) = true → srcChain prev (toks ++ [","]) = true → link prev cur = true →
@@ -677,7 +677,7 @@ theorem encodeLoop_ok (top : Bool) (toks : List Tok) : ∀ (prev : Tok) (cur : L
         · exact hd n hn
       | false =>
         simp only [encodeLoop, hstar', hcomb, hcm, Bool.false_eq_true, if_false]
-        have hne := hasQ_false_not_enc hq
+        have hne := isEncLike_false_not_enc hq
         apply ih t (t :: cur) done htoks.2 hsc'
         · cases hs : (t == " ") with
           | true => simp [link, hs]
